@@ -55,11 +55,26 @@ type vfC11Group struct {
 	Realrep []int   `json:"realrep"` // the driver's own replica list for q (observation only)
 }
 
+// vfC11Il is an interleaved group: several iterators (one Pick each, for the routing tokens Qs)
+// are alive at the same time and advanced one NextHost call at a time in the order given by
+// Sched (1-based iterator numbers; an iterator is created - Pick is called - when it is first
+// mentioned); afterwards every iterator is drained.  Like a query being retried on its next host
+// while other queries for the same partition are picked.
+type vfC11Il struct {
+	Qs     []int   `json:"qs"`
+	Sched  []int   `json:"sched"`
+	Seqs   [][]int `json:"seqs"`   // what each iterator offered, in its own order
+	Capped []bool  `json:"capped"` // per iterator
+	Rep0   []int   `json:"rep0"`   // the policy's stored replica list for Qs[0] before the group
+	Rep1   []int   `json:"rep1"`   // ... and after it (observation only)
+}
+
 type vfC11Case struct {
 	ID     int          `json:"id"`
 	W      vfC11World   `json:"w"`
 	Hist   []vfC11Op    `json:"hist"`
 	Groups []vfC11Group `json:"groups"`
+	Il     []vfC11Il    `json:"il"`
 }
 
 type vfC11Vector struct {
@@ -71,6 +86,8 @@ type vfC11Vector struct {
 	PMsg   string       `json:"pmsg"`
 	PAt    int          `json:"pat"`  // 1-based index in hist of the call that panicked (0: none / in a pick)
 	PGrp   int          `json:"pgrp"` // 1-based index of the group whose pick panicked (0: none)
+	Il     []vfC11Il    `json:"il"`
+	PIl    int          `json:"pil"` // 1-based index of the interleaved group that panicked (0: none)
 }
 
 // vfC11Query is a minimal ExecutableQuery: only the routing key and the keyspace matter
@@ -79,21 +96,21 @@ type vfC11Query struct {
 	key []byte
 }
 
-func (q *vfC11Query) borrowForExecution()                                   {}
-func (q *vfC11Query) releaseAfterExecution()                                {}
-func (q *vfC11Query) execute(ctx context.Context, conn *Conn) *Iter         { return nil }
+func (q *vfC11Query) borrowForExecution()                                    {}
+func (q *vfC11Query) releaseAfterExecution()                                 {}
+func (q *vfC11Query) execute(ctx context.Context, conn *Conn) *Iter          { return nil }
 func (q *vfC11Query) attempt(string, time.Time, time.Time, *Iter, *HostInfo) {}
-func (q *vfC11Query) retryPolicy() RetryPolicy                              { return nil }
+func (q *vfC11Query) retryPolicy() RetryPolicy                               { return nil }
 func (q *vfC11Query) speculativeExecutionPolicy() SpeculativeExecutionPolicy { return nil }
-func (q *vfC11Query) GetRoutingKey() ([]byte, error)                        { return q.key, nil }
-func (q *vfC11Query) Keyspace() string                                      { return "vfks" }
-func (q *vfC11Query) Table() string                                         { return "vft" }
-func (q *vfC11Query) IsIdempotent() bool                                    { return true }
-func (q *vfC11Query) withContext(context.Context) ExecutableQuery           { return q }
-func (q *vfC11Query) Attempts() int                                         { return 0 }
-func (q *vfC11Query) SetConsistency(c Consistency)                          {}
-func (q *vfC11Query) GetConsistency() Consistency                           { return Quorum }
-func (q *vfC11Query) Context() context.Context                              { return context.Background() }
+func (q *vfC11Query) GetRoutingKey() ([]byte, error)                         { return q.key, nil }
+func (q *vfC11Query) Keyspace() string                                       { return "vfks" }
+func (q *vfC11Query) Table() string                                          { return "vft" }
+func (q *vfC11Query) IsIdempotent() bool                                     { return true }
+func (q *vfC11Query) withContext(context.Context) ExecutableQuery            { return q }
+func (q *vfC11Query) Attempts() int                                          { return 0 }
+func (q *vfC11Query) SetConsistency(c Consistency)                           {}
+func (q *vfC11Query) GetConsistency() Consistency                            { return Quorum }
+func (q *vfC11Query) Context() context.Context                               { return context.Background() }
 
 // vfC11Env is one policy object under test with its hosts.
 type vfC11Env struct {
@@ -228,7 +245,7 @@ func vfC11PanicClass(msg, dflt string) string {
 
 // vfC11Run replays the history and the pick groups of one case on fresh real objects.
 func vfC11Run(c *vfC11Case) (v vfC11Vector) {
-	v = vfC11Vector{ID: c.ID, W: c.W, Hist: c.Hist, Groups: []vfC11Group{}, PClass: "none"}
+	v = vfC11Vector{ID: c.ID, W: c.W, Hist: c.Hist, Groups: []vfC11Group{}, PClass: "none", Il: []vfC11Il{}}
 	e := vfC11New(&c.W)
 	for i, op := range c.Hist {
 		if op.Op == "pick" {
@@ -274,7 +291,77 @@ func vfC11Run(c *vfC11Case) (v vfC11Vector) {
 			return v
 		}
 	}
+	for ii, il := range c.Il {
+		out := e.interleave(il)
+		func() {
+			defer func() {
+				if r := recover(); r != nil {
+					v.PMsg = fmt.Sprint(r)
+					v.PClass = vfC11PanicClass(v.PMsg, "pick")
+					v.PIl = ii + 1
+				}
+			}()
+			out.run()
+		}()
+		v.Il = append(v.Il, *out.rec)
+		if v.PClass != "none" {
+			return v
+		}
+	}
 	return v
+}
+
+type vfC11IlRun struct {
+	e     *vfC11Env
+	rec   *vfC11Il
+	iters []NextHost
+	done  []bool
+}
+
+func (e *vfC11Env) interleave(il vfC11Il) *vfC11IlRun {
+	n := len(il.Qs)
+	rec := &vfC11Il{Qs: il.Qs, Sched: il.Sched, Seqs: make([][]int, n), Capped: make([]bool, n), Rep0: []int{}, Rep1: []int{}}
+	for i := range rec.Seqs {
+		rec.Seqs[i] = []int{}
+	}
+	return &vfC11IlRun{e: e, rec: rec, iters: make([]NextHost, n), done: make([]bool, n)}
+}
+
+// step makes one NextHost call on iterator i (creating it with Pick first if necessary).
+func (r *vfC11IlRun) step(i int) {
+	if i < 0 || i >= len(r.iters) || r.done[i] {
+		return
+	}
+	if r.iters[i] == nil {
+		r.iters[i] = r.e.policy.Pick(r.e.query(r.rec.Qs[i]))
+	}
+	if len(r.rec.Seqs[i]) >= 4*len(r.e.hosts)+8 {
+		r.rec.Capped[i], r.done[i] = true, true
+		return
+	}
+	sh := r.iters[i]()
+	if sh == nil {
+		r.done[i] = true
+		return
+	}
+	id := 0
+	if info := sh.Info(); info != nil {
+		id = r.e.idx[info]
+	}
+	r.rec.Seqs[i] = append(r.rec.Seqs[i], id)
+}
+
+func (r *vfC11IlRun) run() {
+	r.rec.Rep0 = r.e.realReplicas(r.rec.Qs[0])
+	for _, k := range r.rec.Sched {
+		r.step(k - 1)
+	}
+	for i := range r.iters {
+		for !r.done[i] {
+			r.step(i)
+		}
+	}
+	r.rec.Rep1 = r.e.realReplicas(r.rec.Qs[0])
 }
 
 // TestVfC11Cases: spec -> code.  Executes the TLC-generated cases of VF_CASES.
@@ -434,6 +521,29 @@ func TestVfC11Random(t *testing.T) {
 			}
 			id++
 			c := &vfC11Case{ID: id, W: w, Hist: append([]vfC11Op{}, hist...), Groups: []vfC11Group{{Q: q, K: k}}}
+			if rnd.Intn(2) == 0 {
+				// two or three live iterators, mostly for the same token, advanced in a random interleaving
+				ni := 2 + rnd.Intn(2)
+				il := vfC11Il{}
+				qq := q
+				if qq < 0 {
+					qq = w.Tokens[rnd.Intn(len(w.Tokens))]
+				}
+				for i := 0; i < ni; i++ {
+					switch rnd.Intn(6) {
+					case 0:
+						il.Qs = append(il.Qs, -1)
+					case 1:
+						il.Qs = append(il.Qs, rnd.Intn(1006))
+					default:
+						il.Qs = append(il.Qs, qq)
+					}
+				}
+				for s, ns := 0, 1+rnd.Intn(3*n+2); s < ns; s++ {
+					il.Sched = append(il.Sched, 1+rnd.Intn(ni))
+				}
+				c.Il = []vfC11Il{il}
+			}
 			v := vfC11Run(c)
 			if err := enc.Encode(v); err != nil {
 				t.Fatal(err)
@@ -441,7 +551,11 @@ func TestVfC11Random(t *testing.T) {
 			if v.PClass != "none" {
 				break
 			}
-			hist = append(hist, vfC11Op{"pick", k})
+			np := k
+			for _, il := range c.Il {
+				np += len(il.Qs)
+			}
+			hist = append(hist, vfC11Op{"pick", np})
 		}
 	}
 	fmt.Printf("VFSUMMARY {\"executed\": %d, \"histories\": %d}\n", id, hists)
